@@ -324,6 +324,7 @@ def run(ctx):
     from ..shared import shared_container_rule as _shared_container_rule
 
     ctx.attempt(_shared_container_rule, ctx, "R12.8", scope=lambda f, _s=("EasyFEA.FEM._linalg", "EasyFEA.FEM._field"): f.module.name.startswith(_s), min_instances=30)
+    ctx.attempt(reflected_operator_rule, ctx)
     ctx.level = "other"
     ctx.explanation = (
         "The protocol overrides of FeArray are interpreted under a stated model of numpy's subclass protocols (sa/femodel.py) on symbolic arrays with Ne == nPg == dim collisions and compared, value and "
@@ -579,7 +580,7 @@ def protocol_rule(ctx):
         run(f"[{L}] per-element matrix @ per-point vector", lambda: m1 @ v1, contract(m1, True, v1, True, 1), True, f"matmul:21b:{L}")
         run(f"[{L}] per-element matrix .dot per-point vector", lambda: M.attr_hook(m1, "dot")(v1), contract(m1, True, v1, True, 1), True, f"dot:21b:{L}")
         # transpose
-        for x, xn in ((m, "matrix"), (c4, "4th-order"), (v, "vector"), (_mk("s", (ne, npg)), "scalar"), (_mk("r", (ne, npg, 2, 3)), "2x3 matrix")):
+        for x, xn in ((m, "matrix"), (c4, "4th-order"), (v, "vector"), (_mk("s", (ne, npg)), "scalar"), (_mk("r", (ne, npg, 2, 3)), "2x3 matrix"), (_mk("t", (ne, npg, 2, 3, 2)), "3rd-order"), (_mk("z", (ne, npg, 3, 2, 2)), "3rd-order (3, 2, 2)")):
             def tr(e, p, x=x):
                 t = _pt(x, e, p, True)
                 return t.transpose() if isinstance(t, XArray) and t.ndim >= 2 else t
@@ -787,3 +788,44 @@ def matrix_function_rank_rule(ctx):
             else:
                 shp = out.shape if isinstance(out, XArray) else "a scalar"
                 r.fail(f.qualname, f"non-matrix:{label.split(' (')[0]}", f.file, f.lineno, fname, f"{fname} of a {label} returns {shp} computed over the element / integration-point axes: there is no matrix at the points of a {label.split(' (')[0]}; the (Ne, nPg) axes were read as tensor axes by a shape coincidence")
+
+
+def reflected_operator_rule(ctx, rid="R12.10"):
+    """'with plain arrays acting as constant tensors': a field / finite-element array on the RIGHT of a plain operand.
+    Every class of EasyFEA.FEM that defines reflected operators (`__rsub__`, `__rtruediv__`, `__rmatmul__`, `__radd__`,
+    `__rmul__`) is interpreted on symbolic 2 x 2 operands: `x.__rop__(b)` must be `b op value(x)` - operands in that
+    order - and `x.__op__(b)` must be `value(x) op b`."""
+    from ..xeval import Interp, XObj, XRaise
+
+    repo = ctx.repo
+    r = ctx.rule(rid, "operators of Field: x.__op__(b) == value(x) op b and the reflected x.__rop__(b) == b op value(x), operands in that order (symbolic 2 x 2 operands: -, /, @ do not commute)", min_instances=8)
+    ci = repo.cls("EasyFEA.FEM._field.Field")
+    A = XArray((2, 2), [Poly.var(f"a{i}{j}") for i in range(2) for j in range(2)])
+    B = XArray((2, 2), [Poly.var(f"b{i}{j}") for i in range(2) for j in range(2)])
+    ops = {"add": lambda x, y: x + y, "sub": lambda x, y: x - y, "mul": lambda x, y: x * y, "truediv": lambda x, y: x / y, "matmul": lambda x, y: x @ y}
+    obj = XObj(ci, {})
+
+    def hook(fn, args, kwargs):
+        if fn is obj:
+            return A
+        return NotImplemented
+
+    I = Interp(repo)
+    I.call_hook = hook
+    for nm, op in ops.items():
+        for refl in (False, True):
+            meth = f"__{'r' if refl else ''}{nm}__"
+            f = ci.methods.get(meth)
+            if f is None:
+                continue
+            r.instance(fn=f.qualname)
+            want = XArray.from_nested(op(B, A) if refl else op(A, B))
+            try:
+                got = XArray.from_nested(I.call_function(f, [B], self_obj=obj))
+            except XRaise as e:
+                r.fail(f.qualname, "raises", f.file, f.lineno, f"Field.{meth}", f"raises {e}")
+                continue
+            if got.shape == want.shape and all(is_zero(Rat.of(x) - Rat.of(y)) for x, y in zip(got.data, want.data)):
+                r.ok(f"Field.{meth}(b) == {'b ' + nm + ' value' if refl else 'value ' + nm + ' b'}")
+            else:
+                r.fail(f.qualname, "operands", f.file, f.lineno, f"Field.{meth}", f"Field.{meth}(b) is not `{'b' if refl else 'field'} {nm} {'field' if refl else 'b'}` (entry [0, 0]: {got.data[0]!r}, expected {want.data[0]!r}): the operands of a non-commutative operation are taken in the wrong order")
